@@ -111,6 +111,8 @@ class Gen:
         self.head = self.find_loop_head()
         self.ex.cut_points = {(self.fn.name, self.head)}
         self.extra_locals = {}
+        self.havocked = set()
+        self.havoc_constraints = []
 
     def find_loop_head(self):
         for bb, ins in self.fn.blocks.items():
@@ -137,6 +139,24 @@ class Gen:
         fr.locals[self.l_iter] = A((S(32, i), S(32, MAXCP), S(1, 1 if exhausted else 0)))
         for k, v in self.extra_locals.items():
             fr.locals.setdefault(k, v)
+        # user variables other than the four the invariant describes may be carried around the loop:
+        # they are havocked (arbitrary value of their type), so the obligations must hold whatever they contain
+        for name, loc in self.fn.debug.items():
+            if loc in (self.l_ranges, self.l_crs, self.l_iter, self.l_f) or loc not in self.extra_locals:
+                continue
+            v = self.extra_locals[loc]
+            if isinstance(v, S):
+                if v.w == 1:
+                    fr.locals[loc] = S(1, z3.Bool('havoc_%s' % name))
+                else:
+                    x = z3.Int('havoc_%s' % name)
+                    self.havoc_constraints.append(z3.And(x >= 0, x < (1 << v.w)))
+                    fr.locals[loc] = S(v.w, x)
+                self.havocked.add(name)
+            elif isinstance(v, FnP):
+                pass
+            else:
+                raise Inconclusive('loop-carried variable `%s` of unsupported shape %r' % (name, v))
         return st, fr.fid
 
 
@@ -322,6 +342,8 @@ def main():
                        inv(i_inv, crs, last_end, cov, cstar, hyp_terms)]
                 ex.solver.add(*hyp)
                 st, fid = g.head_state(i if not exhausted else z3.IntVal(MAXCP), exhausted, crs)
+                if g.havoc_constraints:
+                    ex.solver.add(*g.havoc_constraints)
                 st.aux['cut_armed'] = False
                 res = ex.run(st, base=0)
                 npaths = 0
@@ -370,6 +392,7 @@ def main():
                 samples.append({'obligation': 'step/exit from loop head', 'open_range': crs_kind, 'iterator_exhausted': exhausted, 'paths': npaths})
         # ---------------- failures: replay
         seen = set()
+        unconfirmed = []
         for name, pred, vals in failures:
             key = re.sub(r'\d+', '', name)[:60]
             nat = native_table(drv, pred)
@@ -388,7 +411,20 @@ def main():
                               {'property': 'C18', 'failed_obligation': name, 'predicate_true_on': pred, 'native_output': nat, 'expected': want, 'model': vals,
                                'replay': '%s %s' % (drv, ','.join('%d-%d' % r for r in pred))})
             else:
-                rep.inconc('obligation "%s" failed but the native generator is correct on the derived predicate %s (invariant too weak or encoding wrong)' % (name, pred[:6]))
+                unconfirmed.append((name, pred))
+        if unconfirmed and not rep.violations:
+            # the failing obligation may come from a loop-head state the model's predicate does not reach; look
+            # for a concrete witness among predicates defined by a few boundaries (the family named in the property)
+            found = boundary_search(drv)
+            if found is not None:
+                pred, nat, want = found
+                rep.violation(classify(pred, nat, want), 'obligation "%s" fails; predicate true exactly on %s: generator returns %s, correct table %s'
+                              % (unconfirmed[0][0], pred[:6], nat[:6], want[:6]),
+                              {'property': 'C18', 'failed_obligation': unconfirmed[0][0], 'predicate_true_on': pred, 'native_output': nat, 'expected': want,
+                               'replay': '%s %s' % (drv, ','.join('%d-%d' % r for r in pred))})
+            else:
+                for name, pred in unconfirmed[:3]:
+                    rep.inconc('obligation "%s" failed but the native generator is correct on the derived predicate %s and on all boundary-defined predicates (invariant too weak or encoding wrong)' % (name, pred[:6]))
         rep.coverage = {
             'evaluations': stats['vcs'] + ex.queries, 'distinct_nontrivial': stats['paths'],
             'obligations': stats['vcs'], 'discharged': stats['vcs'] - stats['failed'],
@@ -397,6 +433,7 @@ def main():
             'samples': samples, 'states': stats['paths'], 'transitions': ex.queries, 'traces_validated_against_impl': len(failures),
             'functions_encoded': ['char_range_gen::generate_char_fn_ranges'],
             'bounds': 'none on the predicate or the code points (inductive cut point at the loop head)',
+            'havocked_loop_variables': sorted(g.havocked),
             'solver': 'z3 %s' % z3.get_version_string(), 'solver_time_s': round(ex.solver_time, 2), 'queries_discharged': ex.queries,
             'encoding': 'MIR of %s/crates/char_range_gen/src/main.rs dumped on this run' % REPO,
         }
@@ -408,6 +445,23 @@ def main():
     except (Inconclusive, BuildError) as e:
         rep.inconc(str(e)[:2000])
     return rep.finish()
+
+
+def boundary_search(drv):
+    """predicates that are unions of up to 3 ranges with end points at 0, around the surrogate gap and at char::MAX"""
+    import itertools
+    pts = [0, 1, 2, SLO - 2, SLO - 1, SHI + 1, SHI + 2, SHI + 3, 0xF8FF, MAXCP - 2, MAXCP - 1, MAXCP]
+    ranges = [(a, b) for a in pts for b in pts if a <= b]
+    cands = [[r] for r in ranges]
+    for r1, r2 in itertools.combinations(ranges, 2):
+        if r1[1] + 1 < r2[0] and not (r1[1] == SLO - 1 and r2[0] == SHI + 1):
+            cands.append([r1, r2])
+    for pred in cands:
+        nat = native_table(drv, pred)
+        want = spec_table(pred)
+        if nat != want:
+            return pred, nat, want
+    return None
 
 
 def classify(pred, nat, want):
